@@ -23,7 +23,7 @@ BASE = dict(
     Ops=fs("create", "update", "delete"), MaxOps=2, MaxTx=6, TxKinds=fs("update"), SysCtxs=fs(False), Vias=fs("people"),
     NamePool=fs(), IdNames=True, NickPool=fs(NIL), RolePool=fs(fs()), BossPool=fs(NIL), TeamPool=fs(NIL), SysPool=fs(False),
     LeadPool=fs(False), GradePool=fs("g1"), LtPool=fs(fs(NIL)), FieldSets=Sub("FS_All"), VetoPool=fs(False), OpSysPool=fs(False), PrePool=fs(),
-    CountPool=fs(), MaxRc=3, IdOrder=Sub("Order2"),
+    CountPool=fs(), MaxRc=3, IdOrder=Sub("Order2"), WhereKinds=fs(),
 )
 
 THREE = dict(Ids=fs("p1", "p2", "p3"), IdOrder=Sub("Order3"))
@@ -45,6 +45,10 @@ C03 = family("C03",
 family("C03_mc3", C03, **THREE, NickPool=fs(NIL, "x"), RolePool=fs(fs(), fs("r1"), fs("r1", "r2")), MaxTx=4)
 family("C03_child", C03, Vias=fs("people", "staff"), GradePool=fs("g1", "g2", ""), NickPool=fs(NIL, "x"),
        RolePool=fs(fs(), fs("r1")), FieldSets=Sub("FS_C03x"))
+
+# an index write the storage layer refuses (over-long key): the call fails, nothing is indexed
+family("C03_long", C03, Names=fs("", "a", "b", "p1", "p2", "p3", "p4", "p5", "LONG"), BadNames=fs("LONG"), NamePool=fs("a", "LONG"),
+       NickPool=fs(NIL, "x"), RolePool=fs(fs(), fs("r1")), FieldSets=Sub("FS_C03"))
 
 # ---- C04: foreign keys ---------------------------------------------------------------------------------------
 def c04(boss, team, **kw):
@@ -92,21 +96,31 @@ C06 = family("C06", BASE, Teams=fs("t1", "t2"), BossMode="idxNull", TeamMode="id
 family("C06_links", BASE, Teams=fs("t1", "t2", "t3"), Ops=fs("create", "delete", "createTeam", "deleteTeam", "addLinks", "setLinks", "rcInc"),
        MaxOps=5, MaxRc=2)
 family("C06_cascade", C06, BossMode="conNoneNull", TeamMode="conCascadeNull")
+family("C06_where", C06, Ops=ALLOPS | fs("deleteWhere"), WhereKinds=fs("all", "name", "grade"), NamePool=fs("a", "b"), TeamPool=fs(NIL, "t1"))
 
 # ---- C07 / C08: faults and events ----------------------------------------------------------------------------
 C07 = family("C07", BASE, Teams=fs("t1"), BossMode="idxNull", TeamMode="idx", Vias=fs("people", "staff"),
              Names=fs("", "a", "b", "p1", "p2", "LONG"), BadNames=fs("LONG"),
              Ops=fs("create", "update", "delete", "createTeam", "deleteTeam", "commitAction", "preCommit", "callerError", "addLinks"),
-             NamePool=fs("a", "LONG"), RolePool=fs(fs(), fs("r1"), fs("")), BossPool=fs(NIL, "p1"), TeamPool=fs(NIL, "t1"),
+             NamePool=fs("a", "LONG"), RolePool=fs(fs(), fs("r1"), fs(""), fs("r1", "LONGR")), Roles=fs("r1", "r2", "r3", "", "LONGR"),
+             BossPool=fs(NIL, "p1"), TeamPool=fs(NIL, "t1"),
              Nicks=fs("x", "y", ""), VetoPool=fs(False, True), PrePool=fs("ok", "fail"), TxKinds=fs("update", "batch"),
              SysCtxs=fs(False, True), SysPool=fs(False, True), FieldSets=Sub("FS_C07"), MaxOps=3)
+# writes the storage layer refuses (over-long index key, over-long or empty set element), through either store
+family("C07_storage", C07, Ops=fs("create", "update", "delete", "callerError"), NamePool=fs("a", "b", "LONG"), RolePool=fs(fs(), fs("r1", "LONGR"), fs("")),
+       VetoPool=fs(False), SysCtxs=fs(False), SysPool=fs(False), PrePool=fs(), BossPool=fs(NIL), TeamPool=fs(NIL), TeamMode="off", BossMode="off")
+# link calls with several keys some of which name no entity, in every position
+family("C07_links", BASE, Teams=fs("t1", "t2", "t3"), Ops=fs("create", "createTeam", "deleteTeam", "addLinks", "setLinks", "removeLinks", "callerError"),
+       TxKinds=fs("update", "batch"), MaxOps=3)
+family("C07_entity", BASE, Teams=fs("t1", "t2", "t3"), LinksViaEntity=True, LtPool=fs(fs(), fs("t2"), fs("t1", "t2"), fs("t1", "t3"), fs("t1", "t2", "t3")),
+       Ops=fs("create", "update", "createTeam", "deleteTeam", "callerError"), FieldSets=Sub("FS_C05"), MaxOps=3)
 C08 = family("C08", BASE, Teams=fs("t1"), TeamMode="conCascadeNull", Vias=fs("people", "staff"),
              Ops=fs("create", "update", "delete", "createTeam", "deleteTeam", "commitAction", "preCommit", "callerError"),
              NamePool=fs("a"), NickPool=fs(NIL, "x"), TeamPool=fs(NIL, "t1"), GradePool=fs("g1", "g2"), LeadPool=fs(False, True),
              PrePool=fs("ok", "fail"), TxKinds=fs("update", "batch"), FieldSets=Sub("FS_C08"), MaxOps=3)
 
 # ---- C15: parent / child -------------------------------------------------------------------------------------
-C15 = family("C15", BASE, Vias=fs("people", "staff"), NamePool=fs("a", ""), NickPool=fs(NIL, "x"), RolePool=fs(fs(), fs("r1")),
+C15 = family("C15", BASE, Vias=fs("people", "staff"), Ops=fs("create", "update", "delete", "deleteWhere"), WhereKinds=fs("all", "name", "grade"), NamePool=fs("a", ""), NickPool=fs(NIL, "x"), RolePool=fs(fs(), fs("r1")),
              GradePool=fs("g1", "g2", ""), LeadPool=fs(False, True), FieldSets=Sub("FS_C15"), MaxOps=2)
 family("C15_ext", C15, ChildExtended=True)
 
